@@ -12,6 +12,7 @@ use libtw2_net::connection as c6;
 use libtw2_net::connection7 as c7;
 use serde_json::json;
 use verif_harness::netsim::*;
+use verif_harness::catch;
 use verif_harness::Ctx;
 use verif_harness::Rng;
 use verif_harness::Tier;
@@ -79,6 +80,9 @@ fn fair_suffix<C: Conn>(sim: &mut Sim<C>, rng: &mut Rng) -> [u32; 2] {
     if sim.ended {
         return ticks;
     }
+    // faults stop here
+    sim.sides[0].cb.fail_sends = 0;
+    sim.sides[1].cb.fail_sends = 0;
     let t_end = sim.now() + SUFFIX_US;
     if rng.bool() {
         for s in 0..2 {
@@ -227,6 +231,299 @@ fn largest<C: Conn>(ctx: &mut Ctx, rng: &mut Rng, variant: Variant) {
     finish_case(ctx, &sim, "largest", ticks, prefix, json!({"lens": lens, "side": side}));
 }
 
+/// Long sessions: more vital chunks than there are sequence numbers (1024), so
+/// that the sequence/ack arithmetic wraps at least once in either direction
+/// before the faults stop.
+fn long_session<C: Conn>(ctx: &mut Ctx, rng: &mut Rng, variant: Variant) {
+    let mut sim: Sim<C> = Sim::new(variant, rng.u64());
+    if !sim.handshake() {
+        finish_case(ctx, &sim, "long", [0, 0], 0, json!({"handshake": false}));
+        return;
+    }
+    let total = *rng.pick(&[1030usize, 1100, 1500, 2100, 3100]);
+    let both = rng.bool();
+    let loss = *rng.pick(&[0u64, 0, 1, 5]);
+    let main_side = rng.usize_below(2);
+    let mut sent = 0usize;
+    while sent < total && !sim.ended {
+        let batch = rng.range(1, 12) as usize;
+        for _ in 0..batch {
+            let side = if both && rng.chance(1, 3) { 1 - main_side } else { main_side };
+            sim.apply(Move::Send { side, len: rng.usize_below(24), vital: true, fill: rng.u8() });
+            sent += 1;
+        }
+        for s in 0..2 {
+            sim.apply(Move::Flush(s));
+        }
+        for to in 0..2 {
+            let mut i = 0;
+            while i < sim.wire[to].len() {
+                if rng.below(100) < loss {
+                    sim.apply(Move::Drop { to, idx: i });
+                } else {
+                    i += 1;
+                }
+            }
+        }
+        sim.deliver_all(6);
+        if rng.chance(1, 6) {
+            sim.apply(Move::Advance(*rng.pick(&[1_000u64, 50_000, 600_000, 1_100_000])));
+            for s in 0..2 {
+                if matches!(sim.sides[s].conn.needs_tick(), Some(t) if t <= sim.now()) {
+                    sim.apply(Move::Tick(s));
+                }
+            }
+            sim.deliver_all(6);
+        }
+        deadline_oracle(&mut sim);
+    }
+    let prefix = sim.log.len();
+    let ticks = fair_suffix(&mut sim, rng);
+    let wrapped = sim.sides[0].delivered_vital.max(sim.sides[1].delivered_vital) >= 1024;
+    if wrapped && settled(&sim).is_ok() {
+        ctx.count("long_sessions_settled_past_wrap", 1);
+    }
+    ctx.max("max_vital_delivered_one_direction", sim.sides[0].delivered_vital.max(sim.sides[1].delivered_vital) as u64);
+    finish_case(ctx, &sim, "long", ticks, prefix, json!({"total": total, "both": both, "loss": loss, "main_side": main_side}));
+}
+
+// ------------------------------------------------------------------ multi-peer endpoint
+
+struct NetCb {
+    now_us: u64,
+    sent: Vec<(u8, Vec<u8>)>,
+    rng: Rng,
+    calls: u64,
+}
+
+impl libtw2_net::net::Callback<u8> for NetCb {
+    type Error = std::convert::Infallible;
+    fn secure_random(&mut self, buffer: &mut [u8]) {
+        self.rng.fill(buffer);
+    }
+    fn send(&mut self, addr: u8, data: &[u8]) -> Result<(), Self::Error> {
+        self.calls += 1;
+        if self.calls > 100_000 {
+            panic!("{}", BUDGET_PANIC);
+        }
+        self.sent.push((addr, data.to_vec()));
+        Ok(())
+    }
+    fn time(&mut self) -> libtw2_net::Timestamp {
+        self.calls += 1;
+        if self.calls > 100_000 {
+            panic!("{}", BUDGET_PANIC);
+        }
+        libtw2_net::Timestamp::from_usecs_since_epoch(self.now_us)
+    }
+}
+
+/// The same bounded-progress statement for `Net`: several clients connect to one
+/// accepting endpoint over a lossy wire, then faults stop and everybody is
+/// ticked at its reported deadline (`Net::needs_tick` for the endpoint).
+fn net_progress(ctx: &mut Ctx, rng: &mut Rng) {
+    use libtw2_net::net::ChunkOrEvent;
+    use libtw2_net::net::PeerId;
+    use libtw2_net::Net;
+    let k = rng.range(2, 4) as usize;
+    let loss = *rng.pick(&[0u64, 20, 50, 100]);
+    let prefix = rng.range(10, 120) as usize;
+    let mut net: Net<u8> = Net::server();
+    let mut ncb = NetCb { now_us: START_US, sent: Vec::new(), rng: Rng::new(rng.u64()), calls: 0 };
+    let mut clients: Vec<c6::Connection> = (0..k).map(|_| c6::Connection::new()).collect();
+    let mut ccb: Vec<Cb> = (0..k).map(|i| Cb::new(rng.u64() ^ i as u64)).collect();
+    let mut to_net: Vec<Vec<Vec<u8>>> = vec![Vec::new(); k];
+    let mut to_client: Vec<Vec<Vec<u8>>> = vec![Vec::new(); k];
+    let mut pid: Vec<Option<PeerId>> = vec![None; k];
+    let mut ready = vec![false; k];
+    let mut sub_c = vec![0u32; k]; // vital chunks submitted by client i
+    let mut del_c = vec![0u32; k]; // ... delivered to the endpoint
+    let mut sub_s = vec![0u32; k];
+    let mut del_s = vec![0u32; k];
+    let mut ticks = 0u32;
+    let params = json!({"clients": k, "loss": loss, "prefix": prefix});
+    let r = catch(|| -> Result<(), (String, String, serde_json::Value)> {
+        let set_now = |t: u64, ncb: &mut NetCb, ccb: &mut Vec<Cb>| {
+            ncb.now_us = t;
+            for c in ccb.iter_mut() {
+                c.now_us = t;
+            }
+        };
+        // one step of delivery in either direction; `lossy` applies the loss rate
+        macro_rules! pump {
+            ($lossy:expr) => {{
+                let mut moved = false;
+                for a in 0..k {
+                    while !to_net[a].is_empty() {
+                        let d = to_net[a].remove(0);
+                        moved = true;
+                        if $lossy && rng.below(100) < loss {
+                            continue;
+                        }
+                        ncb.calls = 0;
+                        let mut buf = [0u8; 2048];
+                        let mut w = verif_harness::Warnings::new();
+                        let (it, _res) = net.feed(&mut ncb, &mut w, a as u8, &d, &mut buf[..]);
+                        let evs: Vec<(u8, Option<PeerId>, bool)> = it
+                            .map(|e| match e {
+                                ChunkOrEvent::Connect(p) => (0u8, Some(p), false),
+                                ChunkOrEvent::Chunk(c) => (1, Some(c.pid), c.vital),
+                                ChunkOrEvent::Disconnect(p, _) => (2, Some(p), false),
+                                _ => (3, None, false),
+                            })
+                            .collect();
+                        for (kind, p, vital) in evs {
+                            match kind {
+                                0 => {
+                                    pid[a] = p;
+                                    let _ = net.accept(&mut ncb, p.unwrap());
+                                }
+                                1 if vital => del_c[a] += 1,
+                                _ => {}
+                            }
+                        }
+                    }
+                    for (addr, d) in std::mem::take(&mut ncb.sent) {
+                        to_client[addr as usize].push(d);
+                    }
+                    while !to_client[a].is_empty() {
+                        let d = to_client[a].remove(0);
+                        moved = true;
+                        if $lossy && rng.below(100) < loss {
+                            continue;
+                        }
+                        ccb[a].calls = 0;
+                        let (evs, _) = Conn::feed(&mut clients[a], &mut ccb[a], &d);
+                        for e in evs {
+                            match e {
+                                Event::Ready => ready[a] = true,
+                                Event::Chunk(_, true) => del_s[a] += 1,
+                                _ => {}
+                            }
+                        }
+                        to_net[a].extend(std::mem::take(&mut ccb[a].sent));
+                    }
+                }
+                moved
+            }};
+        }
+        // ---- chaos prefix
+        for step in 0..prefix {
+            let a = rng.usize_below(k);
+            match rng.below(8) {
+                0 | 1 => {
+                    if clients[a].verif_state_name() == "Unconnected" {
+                        Conn::connect(&mut clients[a], &mut ccb[a]);
+                    } else if clients[a].verif_state_name() == "Online" {
+                        let d = payload(a, true, sub_c[a], rng.usize_below(300), 1);
+                        if Conn::send(&mut clients[a], &mut ccb[a], &d, true).is_ok() {
+                            sub_c[a] += 1;
+                        }
+                        Conn::flush(&mut clients[a], &mut ccb[a]);
+                    }
+                    to_net[a].extend(std::mem::take(&mut ccb[a].sent));
+                }
+                2 => {
+                    if let Some(p) = pid[a] {
+                        if net.verif_peer_state(p) == Some("Online") {
+                            let d = payload(9, true, sub_s[a], rng.usize_below(300), 1);
+                            ncb.calls = 0;
+                            if net.send(&mut ncb, libtw2_net::net::Chunk { pid: p, vital: true, data: &d }).is_ok() {
+                                sub_s[a] += 1;
+                            }
+                            let _ = net.flush(&mut ncb, p);
+                        }
+                    }
+                }
+                3 => {
+                    let t = ncb.now_us + *rng.pick(&[1_000u64, 100_000, 500_000, 1_000_000]);
+                    set_now(t, &mut ncb, &mut ccb);
+                }
+                4 => {
+                    ncb.calls = 0;
+                    for e in net.tick(&mut ncb) {
+                        match e {}
+                    }
+                    Conn::tick(&mut clients[a], &mut ccb[a]);
+                    to_net[a].extend(std::mem::take(&mut ccb[a].sent));
+                }
+                _ => {
+                    pump!(true);
+                }
+            }
+            let _ = step;
+        }
+        // every client has at least tried to connect
+        for a in 0..k {
+            if clients[a].verif_state_name() == "Unconnected" {
+                Conn::connect(&mut clients[a], &mut ccb[a]);
+                to_net[a].extend(std::mem::take(&mut ccb[a].sent));
+            }
+        }
+        // ---- fair suffix
+        let t_end = ncb.now_us + SUFFIX_US;
+        for _ in 0..20_000 {
+            if pump!(false) {
+                continue;
+            }
+            let settled = (0..k).all(|a| ready[a] && del_c[a] == sub_c[a] && del_s[a] == sub_s[a]);
+            if settled {
+                return Ok(());
+            }
+            let now = ncb.now_us;
+            let mut did = false;
+            if let Some(t) = timeout_us(net.needs_tick()) {
+                if t <= now {
+                    ncb.calls = 0;
+                    for e in net.tick(&mut ncb) {
+                        match e {}
+                    }
+                    ticks += 1;
+                    did = true;
+                }
+            }
+            for a in 0..k {
+                if let Some(t) = Conn::needs_tick(&clients[a]) {
+                    if t <= now {
+                        Conn::tick(&mut clients[a], &mut ccb[a]);
+                        to_net[a].extend(std::mem::take(&mut ccb[a].sent));
+                        did = true;
+                    }
+                }
+            }
+            if ticks > MAX_TICKS {
+                return Err(("tick-storm".into(), "Net::tick|more-than-200-ticks".into(), json!({"ticks": ticks})));
+            }
+            if did {
+                continue;
+            }
+            let next = std::iter::once(timeout_us(net.needs_tick())).chain((0..k).map(|a| Conn::needs_tick(&clients[a]))).flatten().min();
+            match next {
+                Some(t) if t <= t_end => set_now(t, &mut ncb, &mut ccb),
+                _ => {
+                    let why = if !(0..k).all(|a| ready[a]) { "client-not-ready" } else { "vital-undelivered" };
+                    return Err(("progress".into(), format!("Net|{}|{}", why, if next.is_none() { "no-deadline" } else { "deadline-beyond-bound" }), json!({"ready": ready, "submitted_by_clients": sub_c, "delivered_to_endpoint": del_c, "submitted_by_endpoint": sub_s, "delivered_to_clients": del_s})));
+                }
+            }
+        }
+        Err(("progress".into(), "Net|step-budget".into(), json!({})))
+    });
+    ctx.count("net_histories", 1);
+    ctx.count("net_suffix_ticks", ticks as u64);
+    match r {
+        Err(p) => {
+            if p.msg.contains(BUDGET_PANIC) {
+                ctx.violation("no-return", "Net", "callback-budget", json!({}), json!({"params": params}));
+            } else {
+                ctx.count("other_clause[panic]", 1);
+            }
+        }
+        Ok(Err((clause, class, detail))) => ctx.violation(&clause, "Net fair-suffix", &class, detail, json!({"params": params})),
+        Ok(Ok(())) => ctx.count("net_settled_histories", 1),
+    }
+    ctx.case(Some(rng.u64()));
+}
+
 fn dispatch<F6: FnOnce(&mut Ctx, &mut Rng), F7: FnOnce(&mut Ctx, &mut Rng)>(ctx: &mut Ctx, rng: &mut Rng, v: Variant, f6: F6, f7: F7) {
     if v == Variant::V7 {
         f7(ctx, rng)
@@ -259,6 +556,13 @@ fn main() {
         let v = Variant::all()[(idx % 3) as usize];
         dispatch(ctx, rng, v, |c, r| largest::<c6::Connection>(c, r, v), |c, r| largest::<c7::Connection>(c, r, v));
     });
+    let n = ctx.volume(6, 60, 0, 0);
+    ctx.run_cases("long", n, |ctx, idx, rng| {
+        let v = Variant::all()[(idx % 3) as usize];
+        dispatch(ctx, rng, v, |c, r| long_session::<c6::Connection>(c, r, v), |c, r| long_session::<c7::Connection>(c, r, v));
+    });
+    let n = ctx.volume(150, 3_000, 1, 5);
+    ctx.run_cases("net", n, |ctx, _idx, rng| net_progress(ctx, rng));
     ctx.disarm();
     ctx.finish();
 }
